@@ -1,10 +1,202 @@
-import GeffModel.MetaOps
-/-! # C07 — metadata objects always satisfy the format's invariants (under construction) -/
+import GeffProofs.Meta
+/-! # C07 — metadata objects always satisfy the format's invariants
+
+*Every metadata object obtainable through the public API — constructed, parsed from JSON or zarr
+attributes, copied, or changed by assigning to its fields — satisfies the format's invariants […].
+An operation that would break an invariant raises a validation error and leaves the object as it
+was.*
+
+Model: `GeffModel/Meta.lean` (`parse`, `assign`, `copy`, the helpers of `utils.py`), histories in
+`GeffModel/MetaOps.lean` (`start`, `step`, `run`, `trace`); specification `Geff.Meta.Valid`
+(`GeffModel/MetaSpec.lean`).  Tie: translators T2/T3 (obligations below) and the correspondence
+`harness/corr/C07.py`.  The model is of the tree *with* `fixes/C07-01-assignment-rollback.patch`. -/
+set_option autoImplicit false
 namespace GeffProps.C07
 open Geff.Meta
 
 /-! ## Gen obligations: the hand-written structures are the pydantic class bodies of the working tree -/
 
 theorem gen_translation_ok : Gen.Schema.translationOk = true ∧ Gen.ValidValues.translationOk = true := by decide
+
+/-- `Meta` has exactly the declared fields of `GeffMetadata`, in declaration order, with these types and defaults -/
+theorem gen_geffMetadata_fields :
+    Gen.Schema.geffMetadataFields.map (fun f => (f.name, f.ann, f.required, f.default)) =
+      [("geff_version", "str", false, "GEFF_VERSION"), ("directed", "bool", true, ""),
+       ("axes", "list[Axis] | None", false, "None"),
+       ("node_props_metadata", "dict[str, PropMetadata]", true, ""),
+       ("edge_props_metadata", "dict[str, PropMetadata]", true, ""),
+       ("sphere", "str | None", false, "None"), ("ellipsoid", "str | None", false, "None"),
+       ("track_node_props", "dict[Literal['lineage', 'tracklet'], str] | None", false, "None"),
+       ("related_objects", "list[RelatedObject] | None", false, "None"),
+       ("display_hints", "DisplayHint | None", false, "None"), ("extra", "dict[str, Any]", false, "dict()")] := by
+  decide
+
+theorem gen_fieldNames : fieldNames = Gen.Schema.geffMetadataFields.map (·.name) := by decide
+
+theorem gen_requiredFields :
+    requiredFields = (Gen.Schema.geffMetadataFields.filter (·.required)).map (·.name) := by decide
+
+/-- the version field — and only it — carries `pattern=VERSION_PATTERN` -/
+theorem gen_version_pattern :
+    Gen.Schema.geffMetadataFields.map (·.pattern) =
+      ["VERSION_PATTERN", "", "", "", "", "", "", "", "", "", ""] := by decide
+
+theorem gen_axis_fields :
+    Gen.Schema.axisFields.map (fun f => (f.name, f.ann, f.required, f.default)) =
+      [("name", "str", true, ""), ("type", "AxisType | None", false, "None"),
+       ("unit", "str | SpaceUnits | TimeUnits | None", false, "None"), ("min", "float | None", false, "None"),
+       ("max", "float | None", false, "None"), ("scale", "float | None", false, "None"),
+       ("scaled_unit", "str | SpaceUnits | TimeUnits | None", false, "None"),
+       ("offset", "float | None", false, "None")] := by decide
+
+theorem gen_propMetadata_fields :
+    Gen.Schema.propMetadataFields.map (fun f => (f.name, f.ann, f.required, f.default)) =
+      [("identifier", "Annotated[str, MinLen(1)]", true, ""), ("dtype", "Annotated[str, MinLen(1)]", true, ""),
+       ("varlength", "bool", false, "False"), ("unit", "str | None", false, "None"),
+       ("name", "str | None", false, "None"), ("description", "str | None", false, "None")] := by decide
+
+theorem gen_relatedObject_fields :
+    Gen.Schema.relatedObjectFields.map (fun f => (f.name, f.ann, f.required, f.default)) =
+      [("type", "str", true, ""), ("path", "str", true, ""), ("label_prop", "str | None", false, "None")] := by decide
+
+theorem gen_displayHint_fields :
+    Gen.Schema.displayHintFields.map (fun f => (f.name, f.ann, f.required, f.default)) =
+      [("display_horizontal", "str", true, ""), ("display_vertical", "str", true, ""),
+       ("display_depth", "str | None", false, "None"), ("display_time", "str | None", false, "None")] := by decide
+
+/-- top-level assignment is validated; assignment to the nested models is not (outside the claim) -/
+theorem gen_validate_assignment :
+    Gen.Schema.geffMetadataValidateAssignment = true ∧ Gen.Schema.axisValidateAssignment = false ∧
+    Gen.Schema.propMetadataValidateAssignment = false ∧ Gen.Schema.relatedObjectValidateAssignment = false ∧
+    Gen.Schema.displayHintValidateAssignment = false := by decide
+
+/-- the validators the model mirrors are the ones the classes declare -/
+theorem gen_validators :
+    Gen.Schema.geffMetadataValidators = ["_validate_model_after@model_validator(mode='after')"] ∧
+    Gen.Schema.axisValidators = ["_validate_model@model_validator(mode='after')"] ∧
+    Gen.Schema.propMetadataValidators = ["_convert_dtype@field_validator('dtype', mode='before')"] ∧
+    Gen.Schema.relatedObjectValidators = ["_validate_model@model_validator(mode='after')"] ∧
+    Gen.Schema.displayHintValidators = [] := by decide
+
+/-- sanity of the translated value lists the invariants refer to -/
+theorem gen_valid_values :
+    Gen.ValidValues.axisTypes = ["space", "time", "channel"] ∧ "str" ∈ Gen.ValidValues.dtypes ∧
+    "float16" ∉ Gen.ValidValues.dtypes ∧ (∀ d ∈ Gen.ValidValues.dtypes, 1 ≤ d.length) := by decide
+
+/-! ## The property
+
+`Valid env m` (`GeffModel/MetaSpec.lean`) is the conjunction of the invariants the property lists.
+`env` carries the three library behaviours the model is parameterised by (regular-expression
+search, numpy's dtype-name normalisation, the installed version); the only fact needed about them
+is `hdef`: the package's own version — the *unvalidated default* of `geff_version` — matches the
+version pattern (checked on every run by the harness).
+
+Full-strength statement:
+
+    theorem C07_invariant (hdef) (h : start env init = .ok o) (ops : List Op) :
+        Valid env (run env o ops).val
+
+It is **false** of the code as it stands: `Axis._validate_model` tests `min > max`, which is `False`
+when a bound is NaN, so NaN bounds are accepted although `min <= max` does not hold
+(`C07_counterexample_nan`; recorded as known finding `C07:invalid-object:nan-axis-bound`).  What is
+proved is (a) the invariant the code does enforce, `ValidCode` — identical to `Valid` except that
+`min <= max` reads "not `min > max`" — for every history, and (b) `Valid` itself under the explicit
+hypothesis that no axis bound of the resulting object is NaN. -/
+
+/-- **C07 (enforced invariant, all histories)**: every object obtained by construction / parsing /
+reading attributes, and then changed by any sequence of assignments (valid or invalid values),
+copies and helper calls, satisfies the enforced invariant — induction over the operation list. -/
+theorem C07_invariant_code (env : Env) (hdef : env.versionOk env.defaultVersion = true)
+    (init : Init) (o : MetaObj) (h : start env init = .ok o) (ops : List Op) :
+    ValidCode env (run env o ops).val :=
+  run_valid hdef ops (start_valid hdef h)
+
+/-- **C07 (the specification, all histories, NaN bounds excluded)** -/
+theorem C07_invariant_partial (env : Env) (hdef : env.versionOk env.defaultVersion = true)
+    (init : Init) (o : MetaObj) (h : start env init = .ok o) (ops : List Op)
+    (hnan : NoNaNBounds (run env o ops).val) :
+    Valid env (run env o ops).val :=
+  (valid_iff_validCode env _).2 ⟨C07_invariant_code env hdef init o h ops, hnan⟩
+
+/-- the same for every intermediate object of the history, not only the last one -/
+theorem C07_every_step_partial (env : Env) (hdef : env.versionOk env.defaultVersion = true)
+    (init : Init) (o : MetaObj) (h : start env init = .ok o) (ops : List Op) :
+    ∀ r ∈ trace env o ops, NoNaNBounds r.2.val → Valid env r.2.val :=
+  fun r hr hnan => (valid_iff_validCode env _).2 ⟨trace_valid hdef ops (start_valid hdef h) r hr, hnan⟩
+
+/-- the gap between the two is exactly "some axis bound is NaN" -/
+theorem C07_gap (env : Env) (m : Meta) : Valid env m ↔ ValidCode env m ∧ NoNaNBounds m :=
+  valid_iff_validCode env m
+
+/-- **C07 (a failed operation is a no-op)**: whenever an operation raises, the object afterwards —
+field values *and* fields-set — is the object before.  For assignment this is the roll-back of
+`GeffMetadata.__setattr__`; the helpers work on copies. -/
+theorem C07_failed_op_is_noop (env : Env) (o : MetaObj) (op : Op) (h : (step env o op).1 ≠ none) :
+    (step env o op).2 = o :=
+  step_failed_noop env o op h
+
+/-- **C07 (what is raised)**: a rejected assignment raises a `ValidationError`, nothing else. -/
+theorem C07_rejected_assignment_raises_validation_error (env : Env) (o : MetaObj) (f : String) (v : J)
+    (e : Err) (h : (step env o (.assign f v)).1 = some e) : e = .validation :=
+  assign_err_class env o f v e h
+
+/-- **C07 (an assignment that would break an invariant is rejected)**: if storing the validated
+value would give an object violating the enforced invariant, the assignment raises. -/
+theorem C07_breaking_assignment_is_rejected (env : Env) (o : MetaObj) (ho : ValidCode env o.val)
+    (f : String) (v : J) (m' : Meta) (hset : setField env o.val f v = .ok m') (hbad : ¬ ValidCode env m') :
+    (step env o (.assign f v)).1 = some .validation := by
+  have hfv := setField_fieldsValid ((validCode_iff env _).1 ho).1 hset
+  have hafter : modelAfterOk m' ≠ true := fun h => hbad ((validCode_iff env _).2 ⟨hfv, h⟩)
+  simp [step, assign, hset, hafter]
+
+/-! ## the counterexample to the full-strength statement, and non-vacuity -/
+
+/-- a concrete environment: the version pattern accepts `"1.3"`, numpy names are fixed points -/
+def exEnv : Env :=
+  { pat := fun _ s => s == "1.3" || s == "0.3.1", npName := fun s => some s, defaultVersion := "1.3" }
+
+def reqKeys : List (String × J) :=
+  [("directed", .bool true), ("node_props_metadata", .obj []), ("edge_props_metadata", .obj [])]
+
+/-- `GeffMetadata(directed=True, node_props_metadata={}, edge_props_metadata={},
+                  axes=[Axis(name="x", min=nan, max=1.0)])` -/
+def nanInit : Init :=
+  .parse (.obj (reqKeys ++ [("axes", .arr [.obj [("name", .str "x"), ("min", .flt .nan), ("max", .flt (.fin 1 0))]])]))
+
+def nanObj : MetaObj :=
+  { val := { geff_version := "1.3", directed := true, node_props_metadata := [], edge_props_metadata := [],
+             axes := some [{ name := "x", min := some .nan, max := some (.fin 1 0) }] },
+    fieldsSet := ["directed", "axes", "node_props_metadata", "edge_props_metadata"] }
+
+/-- **the full-strength statement fails**: an axis with a NaN bound is constructed without error and
+violates `min <= max` (replayed on the implementation: `harness/corpus/C07/nan-axis-bound.json`) -/
+theorem C07_counterexample_nan :
+    ¬ (∀ (env : Env), env.versionOk env.defaultVersion = true → ∀ init o, start env init = .ok o →
+        ∀ ops, Valid env (run env o ops).val) := by
+  intro h
+  have hs : start exEnv nanInit = .ok nanObj := by decide
+  exact absurd (h exEnv (by decide) nanInit nanObj hs []) (by decide)
+
+def exAxes : J := .arr [.obj [("name", .str "x")], .obj [("name", .str "y"), ("type", .str "space")]]
+def exInit : Init := .parse (.obj (reqKeys ++ [("axes", exAxes)]))
+def exObj : MetaObj :=
+  { val := { geff_version := "1.3", directed := true, node_props_metadata := [], edge_props_metadata := [],
+             axes := some [{ name := "x" }, { name := "y", type := some "space" }] },
+    fieldsSet := ["directed", "axes", "node_props_metadata", "edge_props_metadata"] }
+
+/-- non-vacuity: the hypotheses of the invariant theorems are met by a non-trivial history … -/
+example : exEnv.versionOk exEnv.defaultVersion = true ∧ start exEnv exInit = .ok exObj := by decide
+
+/-- … in which a duplicate-name assignment is rejected with `ValidationError` and rolled back (D3),
+a display hint naming an undeclared axis likewise, and a valid hint is accepted -/
+example :
+    (step exEnv exObj (.assign "axes" (.arr [.obj [("name", .str "x")], .obj [("name", .str "x")]]))) =
+      (some .validation, exObj) ∧
+    (step exEnv exObj (.assign "display_hints"
+        (.obj [("display_horizontal", .str "q"), ("display_vertical", .str "y")]))).1 = some .validation ∧
+    (step exEnv exObj (.assign "display_hints"
+        (.obj [("display_horizontal", .str "x"), ("display_vertical", .str "y")]))).1 = none ∧
+    NoNaNBounds (run exEnv exObj [.assign "geff_version" (.str "0.3.1"), .copy,
+        .updateAxes ["t", "x"] none (some [some "time", none]) none none none]).val := by decide
 
 end GeffProps.C07
